@@ -217,16 +217,16 @@ func ToCommandLine(wf WireFormat, resolveIds bool) (rule string, err error) {
 		} else if len(r.arch) > 0 && r.arch != "b64" {
 			arch = r.arch
 		}
-		syscallTable, ok := auparse.AuditSyscalls[arch]
-		if !ok {
-			return "", fmt.Errorf("no syscall table for arch %s", arch)
-		}
+		// A syscall without a name in the table (or an arch without a table)
+		// is printed by number, which is what it was added by.
+		syscallTable := auparse.AuditSyscalls[arch]
 		list := make([]string, len(r.syscalls))
 		for idx, syscallID := range r.syscalls {
-			list[idx], ok = syscallTable[int(syscallID)]
+			name, ok := syscallTable[int(syscallID)]
 			if !ok {
-				return "", fmt.Errorf("syscall %d not found for arch %s", syscallID, arch)
+				name = strconv.FormatUint(uint64(syscallID), 10)
 			}
+			list[idx] = name
 		}
 
 		arguments = append(arguments, "-S", strings.Join(list, ","))
